@@ -401,9 +401,15 @@ class _Runner:
                 preceding = ps.tree.elements.get(after_md.token_pointer) if after_md is not None else None
                 token = ps.tree.add(_bytes(f"content/{p}/{cid}", csize), preceding)
                 metadata = Metadata.create(token, md_json, self.keys[p])
-                ps.add_credential(token, metadata, set())
+                if ps.add_credential(token, metadata, set()) is None:
+                    self.refused = [*getattr(self, "refused", []), (p, cid, op.get("after"), "add_credential")]
+                    return
             else:
                 cred = ps.create_credential(hashlib.sha3_256(f"attestation/{p}/{cid}".encode()).digest(), md_json, after_md)
+                if cred is None:
+                    # the pseudonym's own tree (as rebuilt from the database) refuses a token of its owner that follows a stored one
+                    self.refused = [*getattr(self, "refused", []), (p, cid, op.get("after"), "create_credential")]
+                    return
                 metadata = cred.metadata
                 token = ps.tree.elements[metadata.token_pointer]
             self.creds[(p, cid)] = (token, metadata)
@@ -942,6 +948,11 @@ def _run_inproc(c, case: dict, tmp: str, keys: list, tag: str = "w"):  # noqa: A
         c.probe("overflow_row", runner.overflow)
     if getattr(runner, "retokens", 0):
         c.probe("stored_token_offered_again_without_content", runner.retokens)
+    for p_, cid_, after_, how_ in getattr(runner, "refused", []):
+        c.violate("reload", "credential_refused_by_reloaded_tree",
+                  f"pseudonym {p_}: {how_} for credential {cid_} (following credential {after_}) returned None: the tree rebuilt from the "
+                  f"database does not accept a token of its owner that points back to a stored token")
+        break
     if getattr(runner, "reblobs", 0):
         c.probe("stored_attestation_delivered_again", runner.reblobs)
     for end, probe in (("ok", "batch_committed"), ("error", "batch_left_by_error"), ("ignore", "batch_left_by_ignorecommits")):
